@@ -1,4 +1,5 @@
 import TcheranVerif.Proofs.MagicCert
+import TcheranVerif.Proofs.Sweep.S20  -- only to bound how many parts are checked at once (≈8 GB each)
 /-! C07 sweep, part 24: rook squares [51, 52, 53, 54] — decided by the kernel alone -/
 namespace Tcheran.Sweep
 
